@@ -195,8 +195,10 @@ impl HalfConnection {
         self.rtt_ms = rtt_ms;
         self.rto_ms = rto_ms;
 
-        // Forget old frame data
-        self.frame_queue.forget_frames(now_ms.saturating_sub(rtt_ms*4), self.send_rate_comp.rtt_ms());
+        // Forget old frame data. Frames are remembered for at least one RTO: the acknowledgement of a
+        // frame may be held back by the peer's own rate limit for up to that long, and an ack group which
+        // names a forgotten frame is rejected as a whole (no feedback would ever be accepted again).
+        self.frame_queue.forget_frames(now_ms.saturating_sub((rtt_ms*4).max(rto_ms)), self.send_rate_comp.rtt_ms());
 
         // Fill flush allocation
         self.fill_flush_alloc(now);
